@@ -1,28 +1,44 @@
-"""Concrete-shape symbolic interpreter for the C14 rules (helper of verifier/c14.py).
+"""Concrete-shape symbolic interpreter for the C14 rules (helper of verifier/c14.py, used by verifier/c14_geo.py).
 
 The C14 rules no longer look at *how* a function is written.  They run it: `Interp` executes the Python source of a function of
 pyyeti/nastran/n2p.py on inputs whose **shapes are concrete and whose entries are formulas** (verifier/e2_formula.py) and hands the
 returned value to the rule, which compares it with the geometric meaning.  Nothing of pyyeti / numpy is imported or executed; the
-interpreter below is a small model of the Python statements and of the numpy / pandas calls the anchored functions use:
+interpreter below is a model of the Python statements and of the numpy / pandas operations the anchored functions (and their plausible
+re-implementations) use:
 
-  * `Arr` - an n-d array of formulas with numpy's *view* semantics: basic indexing, `.T`, `reshape` share storage with their base, so
-    a store through an alias, a slice of a slice, a column view or an in-place operator reaches the array it reaches in numpy;
-    advanced (integer / boolean array) indexing, broadcasting, `@` / dot / matmul, reductions, stacking;
-  * Python values: tuples, lists (`LVal`, mutable), dicts (`DVal`), slices, closures / lambdas / nested and module-level functions
-    (`FuncVal`, called with defaults, keywords, star arguments), bound methods, module constants, import aliases;
-  * statements: assignment (tuple / star unpacking, chained subscripts, augmented in place), if / for / while / break / continue /
-    return / raise / try / with / def / walrus / conditional expressions / comprehensions, `itertools.count`;
-  * `Table` - the USET DataFrame with its (id, dof) MultiIndex: `.iloc`, `.loc`, `.index.get_level_values`, `.index.get_loc`, `.values`;
-  * anything not modelled is an opaque application `call:name(args)` (recorded in `calls`); a construct that cannot be executed raises
-    `Unsupported` (exit 2, never a verdict).
+  * `Arr` - an n-d array of formulas with numpy's *view* semantics: basic indexing, `.T`, `reshape`, iteration over rows share storage with
+    their base, so a store through an alias, a slice of a slice, a column view, `out=` or an in-place operator reaches the array it reaches in
+    numpy; advanced (integer / boolean array) indexing copies; broadcasting, `@` / dot / matmul (stacks of matrices too), einsum, reductions,
+    stacking / block / tile / kron / cross, sorting of constants;
+  * Python values: tuples, lists (`LVal`), dicts (`DVal`), slices, `np.s_`, closures / lambdas / nested, module-level and recursive functions
+    (`FuncVal`: defaults, keywords, star arguments, nonlocal), generators (run to their end when called), functools.partial / reduce, plain
+    classes (methods, properties, class attributes), SimpleNamespace, bound methods, module constants, import aliases, local imports;
+  * statements: assignment (tuple / star unpacking, chained subscripts, augmented in place), if / for / while (with else) / break / continue /
+    return / raise / try / with / def / class / match / del / walrus / conditional expressions / comprehensions, `itertools.count`;
+  * `Table` - the USET DataFrame with its (id, dof) MultiIndex: `.iloc`, `.loc`, `[...]`, `.index.get_level_values`, `.index.get_loc`,
+    `.values` / `.to_numpy()`, `.shape`;
+  * **run-time errors are values of the analysis**: an index out of range, a boolean mask of the wrong length, shapes that do not broadcast,
+    a float where Python wants an integer (`FRat`: float literals and true divisions of constants), `None` used as an array, a local read
+    before it is bound, an undefined name, a wrong number of values to unpack raise `PyError` - the rule reports them as a violation when the
+    regime is shown to be reachable (`Run.sure`);
+  * what is **not** modelled never becomes a verdict: an unknown call is an opaque application `call:name(args)` (recorded in `calls`; the rules
+    refuse to judge a result that contains one), a keyword argument a model does not implement keeps the call opaque (never dropped), an
+    opaque call that could modify a tracked array / list / dict, an unknown method of a tracked object, and every construct outside the list
+    above raise `Unsupported` (ANALYSIS-ERROR, exit 2).
 
 `explore` runs a function once per *regime*: a test that neither folds to a constant nor is decided by the rule's `truth` callback
-splits the run in two (decisions are keyed by the *value* of the test, so the same question gets the same answer everywhere)."""
+splits the run in two (decisions are keyed by the *value* of the test, so the same question gets the same answer everywhere).
+
+Known limits (exit 2, or - for the first - a possible wrong value): generators, map / zip / filter are evaluated eagerly (sound when the
+producer only reads, or writes what the consumer does not touch in between); pandas beyond the operations listed; complex numbers; linear
+solves / inverses; decorators other than functools caches; dataclasses / namedtuples / metaclasses; `global`; sorting of symbolic values;
+a bare number compared with a list (`0 != [0, 0, 0]`) splits the regime: Python and numpy scalars answer differently."""
 from __future__ import annotations
 
 import ast
 import itertools
 import math
+import os
 from fractions import Fraction
 
 from . import e2_formula as F
@@ -974,7 +990,8 @@ class Shared:
         return self.counter
 
 
-MODULE_ALIASES = {"numpy": "np", "scipy.linalg": "linalg", "numpy.linalg": "np.linalg", "la": "linalg"}
+MODULE_ALIASES = {"numpy": "np", "scipy.linalg": "linalg", "numpy.linalg": "np.linalg", "la": "linalg", "pyyeti.locate": "locate",
+                  "pyyeti.ytools": "ytools"}
 CONST_NAMES = {"np.pi": F.sym("pi"), "math.pi": F.sym("pi"), "np.newaxis": NONE, "math.inf": F.sym("inf"), "np.inf": F.sym("inf")}
 SUBMODULES = {"np.linalg", "scipy.linalg", "scipy", "np.random", "np.ma"}
 IDENT_METHODS = {"astype", "copy", "to_numpy", "squeeze", "view", "__array__", "item", "conj", "conjugate", "tolist_none"}
@@ -1448,6 +1465,15 @@ class Interp:
             raise Unsupported("comparison of sequences that cannot be decided")
         if is_rat(a) and is_rat(b):
             return G.compare(op, a, b)
+        num, seq = (a, b) if is_rat(a) else (b, a)
+        if is_rat(num) and isinstance(seq, (tuple, LVal)) and not _objectlike(num) and str_of(num) is None:
+            # a bare number against a list: a numpy scalar compares element-wise, a Python number is simply unequal - both callers exist,
+            # so this is a question about the input (a regime split), not something to guess
+            if self.decide(F.sym("<the number is a numpy scalar>"), node):
+                return lift2(lambda x, y: G.compare(op, x, y), a, b)
+            if op in ("Eq", "NotEq"):
+                return FALSE if op == "Eq" else TRUE
+            raise PyError("TypeError", f"'{op}' not supported between a number and a list")
         raise Unsupported(f"comparison of {type(a).__name__} and {type(b).__name__}")
 
     def e_BinOp(self, node, fr):
@@ -2268,6 +2294,8 @@ def _int(v, what):
 
 
 def _shape_arg(v):
+    if isinstance(v, Arr) and v.ndim >= 2:
+        raise PyError("TypeError", "a two-dimensional array cannot be interpreted as a shape")
     if isinstance(v, (tuple, LVal, Arr)):
         items = list(v) if isinstance(v, tuple) else (v.items if isinstance(v, LVal) else v.flat())
         return tuple(_int(x, "array shape") for x in items)
@@ -3021,6 +3049,21 @@ def L_islice(ip, args, kwargs, node):
     return tuple(items[slice(*ks)])
 
 
+def _const_sorted(kind):
+    def f(ip, args, kwargs, node):
+        if len(args) != 1 or not _arrayish(args[0]):
+            return NotImplemented
+        a = as_arr(args[0])
+        cs = [G.const_of(v) if is_rat(v) else None for v in a.flat()]
+        if a.ndim != 1 or any(c is None for c in cs):
+            return NotImplemented          # the order of symbolic entries is not known
+        if kind == "argsort":
+            return as_arr(tuple(F.const(k) for k in sorted(range(len(cs)), key=lambda k: (cs[k], k))))
+        vals = sorted(set(cs)) if kind == "unique" else sorted(cs)
+        return as_arr(tuple(F.const(c) for c in vals))
+    return f
+
+
 def L_noop(ip, args, kwargs, node):
     return NONE
 
@@ -3120,6 +3163,7 @@ LIB = {
     "print": L_noop, "warnings.warn": L_noop, "isinstance": L_isinstance, "np.isscalar": L_isscalar, "hasattr": L_hasattr,
     "np.flip": L_flip(None), "np.flipud": L_flip(0), "np.fliplr": L_flip(1), "math.floor": L_floor("floor"), "math.ceil": L_floor("ceil"),
     "np.floor": L_floor("floor"), "np.ceil": L_floor("ceil"), "round": L_floor("round"), "getattr": L_getattr,
+    "np.sort": _const_sorted("sort"), "np.argsort": _const_sorted("argsort"), "np.unique": _const_sorted("unique"),
     "np.argwhere": L_argwhere, "itertools.compress": L_compress, "itertools.islice": L_islice,
     "np.einsum": L_einsum, "np.tile": L_tile, "np.repeat": L_repeat, "np.kron": L_kron, "np.block": L_block, "np.outer": L_outer, "np.swapaxes": L_swapaxes,
     "np.expand_dims": L_expand_dims, "np.fill_diagonal": L_fill_diagonal, "np.trace": L_trace, "np.prod": L_prod, "np.append": L_append,
@@ -3397,6 +3441,12 @@ def explore(ctx, rel, fn, args=None, truth=None, hook=None, stops=(), inline_pub
             raise Unsupported("break / continue outside a loop")
         except RecursionError:
             raise Unsupported("evaluation too deep")
+        except (Unsupported, G.NeedDecision):
+            raise
+        except Exception as e:  # noqa - a gap of the interpreter itself is an analysis error with a readable cause
+            import traceback
+            where = traceback.extract_tb(e.__traceback__)[-1]
+            raise Unsupported(f"the evaluation failed internally ({type(e).__name__}: {e}; {os.path.basename(where.filename)}:{where.lineno})")
         done.append(Run(ip, ret, False))
     return done
 
